@@ -147,6 +147,47 @@ pub fn run(run: &mut Run) {
         }
         acc.outcome2("history", "visited");
     });
+    // probes after a *deviating* transfer: every packet of the t = 1 deviation space of the core
+    // shapes (every byte x 256 values, PEC stale and re-computed) is decoded or processed first;
+    // then prefixes of that packet and of the undeviated packet (3, 4, 9 bytes, whole) are probed.
+    // Whatever the earlier transfer looked like -- a byte count that does not match, another
+    // source, a right or a wrong PEC -- the probe depends on the three bytes it is shown.
+    {
+        let sp = crate::props::dec::space_t1_core();
+        run.sweep_chunked("t=1 deviation packet decoded/processed, then prefixes (3, 4, 9, all) of it and of its base packet probed", sp.n() * 2, |acc, lo, hi| {
+            let cfg = Cfg::simple(crate::props::dec::DST);
+            let owned = Owned::new(&cfg);
+            let mut buf = Vec::with_capacity(300);
+            for i in lo..hi {
+                let processed = i % 2 == 1;
+                sp.get(i / 2, &mut buf);
+                let base = sp.base_of(i / 2).to_vec();
+                let first = if processed { Event::Process(buf.clone()) } else { Event::Decode(buf.clone()) };
+                let ctx = build(&owned, std::slice::from_ref(&first));
+                acc.evals += 1;
+                acc.trans += 1;
+                for src in [&buf, &base] {
+                    for k in [3usize, 4, 9, src.len()] {
+                        if k > src.len() || k < 3 {
+                            continue;
+                        }
+                        let got = subject::get_length(&ctx, &src[..k]);
+                        acc.trans += 1;
+                        acc.validated += 1;
+                        if let Some(d) = judge_one(&got, &src[..k]) {
+                            let spec = CtxSpec { cfg: cfg.clone(), history: vec![first.clone()] };
+                            acc.violation(2, "probe-after-deviating-transfer", d, || json!({"prop": "C17", "check": "probe-history", "spec": spec, "input": hex(&src[..k]), "ctx": 0}));
+                        }
+                    }
+                }
+                if i % 4099 == 0 {
+                    acc.state(Fnv::default().u64(0x17D).u64(i).finish());
+                    acc.nontrivial(Fnv::default().u64(0x17E).u64(i).finish());
+                }
+            }
+            acc.outcome2("after-deviating-transfer", "visited");
+        });
+    }
     // IPMB-shaped frames (whole frames, not prefixes) on the device they name and on another one
     run.sweep_chunked("IPMB-shaped frames through the probe, on the addressed device and on another", crate::props::dec::IPMB_LIKE_N, |acc, lo, hi| {
         let mut buf = Vec::with_capacity(40);
